@@ -117,3 +117,33 @@ type NCDOuter struct {
 	L []*NCD `frugal:"2,default,list<NCD>"`
 	V NCD    `frugal:"3,default,NCD"`
 }
+
+// Deep1..Deep6: a chain of six distinct struct types nested through every kind of edge (pointer
+// field, map value, by-value field, list element): descriptors built "up to a depth" must still be
+// complete when a value reaches the last level.
+type Deep6 struct {
+	X int32  `frugal:"1,default,i32"`
+	S string `frugal:"2,default,string"`
+}
+type Deep5 struct {
+	N *Deep6   `frugal:"1,optional,Deep6"`
+	L []*Deep6 `frugal:"2,default,list<Deep6>"`
+}
+type Deep4 struct {
+	V Deep5 `frugal:"1,default,Deep5"`
+}
+type Deep3 struct {
+	M map[string]*Deep4 `frugal:"1,default,map<string:Deep4>"`
+}
+type Deep2 struct {
+	N *Deep3 `frugal:"1,optional,Deep3"`
+	X int32  `frugal:"2,default,i32"`
+}
+type Deep1 struct {
+	N *Deep2 `frugal:"1,optional,Deep2"`
+}
+
+// DeepValue returns a value of the chain that reaches every level.
+func DeepValue() *Deep1 {
+	return &Deep1{N: &Deep2{X: 2, N: &Deep3{M: map[string]*Deep4{"k": {V: Deep5{N: &Deep6{X: 6, S: "six"}, L: []*Deep6{{X: 7, S: "seven"}, {X: 8}}}}}}}}
+}
